@@ -44,6 +44,7 @@ namespace {
       bool probe_decimal = true;
       std::string probe_text;
       int indent_before = 0, indent_after = 0;
+      bool second_same = true;
    };
 
    enum EntryPoint { EP_expr, EP_stmt, EP_decl, EP_type, NEP };
@@ -79,6 +80,35 @@ namespace {
       o.flags_kept = os.flags() == flags and os.fill() == fill and os.width() == width and os.precision() == prec;
       o.text = buf.str();
       if (o.outcome == "output-overflow") return o;
+      // the same printer asked again for the same construct must behave the same (nothing of the first print may linger)
+      if (o.outcome == "completed" or o.outcome == "logic_error") {
+         const std::size_t mark = o.text.size();
+         std::string second;
+         pp << ipr::Printer::Padding::None;
+         pp.needs_newline(false);
+         const int before_second = pp.indent();
+         try {
+            switch (ep) {
+            case EP_expr: pp << ipr::xpr_expr(e); break;
+            case EP_stmt: pp << ipr::xpr_stmt(e); break;
+            case EP_decl: pp << ipr::xpr_decl(e); break;
+            case EP_type: pp << ipr::xpr_type(*as_type); break;
+            }
+            second = "completed";
+         }
+         catch (const std::logic_error&) { second = "logic_error"; }
+         catch (...) { second = "other"; }
+         o.second_same = second == o.outcome;
+         if (o.outcome == "completed" and second == "completed") {
+            std::string again = buf.str().substr(mark);
+            // leading layout may differ (pending newline / padding); compare from the first non-blank byte
+            auto strip = [](const std::string& t) { std::size_t i = 0; while (i < t.size() and (t[i] == ' ' or t[i] == '\n')) ++i; return t.substr(i); };
+            o.second_same = strip(again) == strip(o.text);
+         }
+         if (second == "completed") pp.indent(before_second - pp.indent());       // (a refused second print may leave indentation anywhere)
+         buf.str(o.text);
+         buf.pubseekoff(0, std::ios_base::end, std::ios_base::out);
+      }
       // probe: numbers written after the case must be decimal from the first to the last byte
       const std::size_t before = o.text.size();
       try {
@@ -172,13 +202,15 @@ namespace {
       auto bad = stray_control_bytes(o.text, allowed_ctrl);
       if (not bad.empty())
          rep.violation("C18:control-byte:" + where, rank, "printing " + case_name + " wrote control byte(s) 0x" + hex(bad) + " that occur in no spelling of the graph", witness);
+      if (not o.second_same)
+         rep.violation("C18:second-print-differs:" + where, rank, "printing " + case_name + " a second time with the same printer does not end the same way / give the same text as the first time", witness);
       if (top_level and o.outcome == "completed" and o.indent_after != o.indent_before)
          rep.violation("C18:indentation:" + where, rank, "after printing " + case_name + " as a complete top-level construct the printer's indentation is " + std::to_string(o.indent_after) + ", it started at " + std::to_string(o.indent_before), witness);
    }
 
    std::string encode(const Observation& o)
    {
-      return o.outcome + "\n" + (o.flags_kept ? "1" : "0") + (o.probe_decimal ? "1" : "0") + "\n" + std::to_string(o.indent_before) + " " + std::to_string(o.indent_after) + "\n"
+      return o.outcome + "\n" + (o.flags_kept ? "1" : "0") + (o.probe_decimal ? "1" : "0") + (o.second_same ? "1" : "0") + "\n" + std::to_string(o.indent_before) + " " + std::to_string(o.indent_after) + "\n"
              + std::to_string(o.probe_text.size()) + "\n" + o.probe_text + o.text;
    }
    Observation decode(const std::string& s)
@@ -189,8 +221,9 @@ namespace {
       o.outcome = s.substr(0, p);
       o.flags_kept = s[p + 1] == '1';
       o.probe_decimal = s[p + 2] == '1';
-      std::size_t q = s.find('\n', p + 4);
-      std::sscanf(s.c_str() + p + 4, "%d %d", &o.indent_before, &o.indent_after);
+      o.second_same = s[p + 3] == '1';
+      std::size_t q = s.find('\n', p + 5);
+      std::sscanf(s.c_str() + p + 5, "%d %d", &o.indent_before, &o.indent_after);
       std::size_t r = s.find('\n', q + 1);
       std::size_t plen = std::strtoul(s.c_str() + q + 1, nullptr, 10);
       o.probe_text = s.substr(r + 1, plen);
@@ -508,6 +541,7 @@ namespace {
          if ((t & 0x3ff) == 0 and opt.expired()) { rep.cap("deadline during the statement-tree sweep at tree " + std::to_string(t)); break; }
          check_tree(int(t), 0);
          if (t < full) check_tree(int(t), 6);
+         if (t < depth_end[1]) { check_tree(int(t), 31); check_tree(int(t), 64); check_tree(int(t), 255); }      // deeply nested contexts
       }
       if (opt.shard == 0) rep.info("statement_trees", vf::JObj{}.num("complete_to_depth", 3).num("trees_depth_le_3", full).num("trees_total", (long long) trees.size()).done());
       rep.count("traces");
